@@ -117,6 +117,9 @@ pub struct Ctx {
     pub violation_count: AtomicU64,
     pub assumptions: Mutex<Vec<String>>,
     pub only_family: Option<String>,
+    /// the tier that was asked for (recorded in evidence and output); `tier` above is the tier whose BOUNDS are used, which is
+    /// the thorough one for checks whose thorough bounds cost seconds
+    pub asked_tier: Tier,
     /// problems of the machinery itself (nondeterministic replay, failed dedup audit): exit 2 unless a violation was confirmed,
     /// in which case they are printed as notes next to it
     pub machinery: Mutex<Vec<String>>,
@@ -137,6 +140,7 @@ impl Ctx {
             violation_count: AtomicU64::new(0),
             assumptions: Mutex::new(vec![]),
             only_family: std::env::var("VERIF_FAMILY").ok(),
+            asked_tier: tier,
             machinery: Mutex::new(vec![]),
         }
     }
